@@ -257,9 +257,13 @@ def write_pcapng(messages, rng, noise=True, ether=None, mixed=None, pad=0):
     clock_steps = noise and rng.random() < 0.25             # the capture clock is stepped back now and then
     v6 = noise and rng.random() < 0.15                      # localhost resolved to ::1 (Ethernet-framed packets only)
     n_pkt = 0
+    # TCP retransmissions / frames recorded twice (bridges, `-i any`): the very same segment - addresses, ports, sequence
+    # number, payload - appears again, at once or a few packets later.  The front-end is specified per packet.
+    retransmit = noise and rng.random() < 0.15
+    pending, resent = [], 0
 
     def packet(payload):
-        nonlocal out, seq, ts, seq_back, n_pkt
+        nonlocal out, seq, ts, seq_back, n_pkt, resent
         back = two_way and n_pkt % 2 == 1
         n_pkt += 1
         if back:
@@ -279,6 +283,20 @@ def write_pcapng(messages, rng, noise=True, ether=None, mixed=None, pad=0):
             pkt = mac() + mac() + (b"\x86\xdd" if v6 else b"\x08\x00") + pkt
         ts += rng.randrange(1, 5000)
         out += _block(6, struct.pack("<IIIII", iface, ts >> 32, ts & 0xFFFFFFFF, len(pkt), len(pkt)) + pkt)
+        for k in range(len(pending) - 1, -1, -1):
+            pending[k][0] -= 1
+            if pending[k][0] <= 0:
+                _, i2, p2 = pending.pop(k)
+                ts += rng.randrange(1, 5000)
+                out += _block(6, struct.pack("<IIIII", i2, ts >> 32, ts & 0xFFFFFFFF, len(p2), len(p2)) + p2)
+                resent += 1
+        if retransmit and rng.random() < 0.35:
+            pending.append([rng.choice((0, 0, 1, 2, 5)), iface, pkt])
+            if pending[-1][0] == 0:
+                _, i2, p2 = pending.pop()
+                ts += rng.randrange(1, 5000)
+                out += _block(6, struct.pack("<IIIII", i2, ts >> 32, ts & 0xFFFFFFFF, len(p2), len(p2)) + p2)
+                resent += 1
 
     for j, m in enumerate(messages):
         if noise and rng.random() < 0.3:
@@ -292,7 +310,7 @@ def write_pcapng(messages, rng, noise=True, ether=None, mixed=None, pad=0):
     if noise and rng.random() < 0.2:
         packet(bytes(rng.randrange(256) for _ in range(rng.choice((0, 4)))))
         runts += 1
-    return out, dict(ether=ether, mixed=mixed, trailer=trailer, runts=runts, options=bool(opts))
+    return out, dict(ether=ether, mixed=mixed, trailer=trailer, runts=runts, options=bool(opts), resent=resent)
 
 
 def ref_pcapng_carried(blob):
